@@ -226,7 +226,8 @@ def mergeCopyLoop (cfg : Cfg) : List (Option Slot) → Tab → Nat → Res
       else mergeCopyLoop cfg rest t next
 
 /-- The loop of the moving `operator+=`: an absent key adopts the source's blocks, a present one
-adopts the value and the source's key is disposed. -/
+adopts the value (releasing its own) and the source's key is disposed.  (`HList` items have no
+value: both value fields are `none` and nothing happens for them.) -/
 def mergeMoveLoop (cfg : Cfg) : List (Option Slot) → Tab → List Ev × Tab
   | [], t => ([], t)
   | none :: rest, t => mergeMoveLoop cfg rest t
@@ -234,8 +235,8 @@ def mergeMoveLoop (cfg : Cfg) : List (Option Slot) → Tab → List Ev × Tab
     match findSlot t.slots s.key with
     | none => mergeMoveLoop cfg rest { t with slots := t.slots ++ [some s] }
     | some (i, d) =>
-      let r := mergeMoveLoop cfg rest { t with slots := t.slots.set i (some { d with vb := if cfg.hasValue then s.vb else d.vb }) }
-      ((if cfg.hasValue then optFree d.vb else []) ++ freeB s.kb :: r.1, r.2)
+      let r := mergeMoveLoop cfg rest { t with slots := t.slots.set i (some { d with vb := s.vb }) }
+      (optFree d.vb ++ freeB s.kb :: r.1, r.2)
 
 /-- The operand of a merge: a fresh table, `Insert`s, then `Remove`s. -/
 def buildOperand (cfg : Cfg) (ins : List (List Nat × Nat)) (rem : List (List Nat)) (next : Nat) : Res :=
